@@ -517,5 +517,5 @@ func predLogs(c logsCase, o *evid.Obs) error {
 var _ = chsim.Date(0)
 
 func addLogs(r *evid.Run) {
-	evid.Add(r, evid.Prop[logsCase]{Name: "logs", Quick: 400, Thorough: 4000, Gen: genLogs, Pred: predLogs})
+	evid.Add(r, evid.Prop[logsCase]{Name: "logs", Quick: 800, Thorough: 4000, Gen: genLogs, Pred: predLogs})
 }
